@@ -2,6 +2,7 @@
 //! See /verif/DESIGN.md.
 
 pub mod chooser;
+pub mod machine;
 pub mod rng;
 pub mod runner;
 pub mod shim;
